@@ -13,9 +13,14 @@ c_Menu == {
     L("L5", <<"d3.a">>, "d1.a", FALSE),         \* closes a cycle
     L("L6", <<"d2.b">>, "d3.b", TRUE),          \* identity (LinkSame)
     L("L7", <<"d2.a">>, "d2.b", FALSE),         \* inside one dataset
-    L("L8", <<"d3.b">>, "d1.b", TRUE) }
+    L("L8", <<"d3.b">>, "d1.b", TRUE),
+    L("L9", <<"d2.a", "d3.a">>, "d1.b", FALSE) }  \* two inputs owned by different datasets
 c_MenuSmall == {l \in c_Menu : l.id \in {"L1", "L2", "L3", "L4", "L6"}}
+c_All == c_Dataset
+c_None == {}
+c_AllComp == c_Comp
 view == <<lvars>>
+D3 == TLCGet("level") <= 4
 D4 == TLCGet("level") <= 5
 D5 == TLCGet("level") <= 6
 D6 == TLCGet("level") <= 7
